@@ -51,6 +51,7 @@ Definition contract : list (string * string * list cexn) := [
   ("resize_small", "TRK", [FormatError]);  ("resize_tree", "R", [FormatError]);
   (* unimplemented class or member, cast to another type *)
   ("unimplemented", "ALUTRKSGHJV", [ClassError]); ("sort_list", "L", [ClassError]);
+  ("unimplemented_member", "ALUTRKSGHJV", [ClassError]); ("unimplemented_member2", "ALUSGHJV", [ClassError]);
   ("cast_wrong", "ALUTRKSGHJV", [ValueError]);
   (* too few format arguments *)
   ("print_fewargs", "S", [FormatError]);   ("print_fewargs_dollar", "S", [FormatError])
